@@ -261,7 +261,7 @@ PROPS = {
     "C09": {
         "suites": ["purego-race:argonsched", "argon"],
         "level": "proof",
-        "fail_kinds": ["data-race", "schedule-dependent", "goroutine-leak", "reference-set", "differs-from-sequential"],
+        "fail_kinds": ["data-race", "schedule-dependent", "goroutine-leak", "reference-set", "differs-from-sequential", "differs-from-rfc"],
         "technique": "Lean 4 proof (reference-set theorem about the index kernel regenerated from source; schedule independence of tasks with disjoint write regions, for every schedule) + race-detector exploration of the portable build under perturbed scheduling",
         "claim": "Kernel-checked: (1) reference-set theorems about the indexAlpha kernel regenerated from the source (a cross-lane reference never points into the slice being written; a same-lane reference is strictly earlier; everything inside the memory); (2) for tasks that write only their own region and read only it and a frozen area, EVERY schedule leaves each region exactly as the task's solo run; (3) the link to the concrete model: the model's own fill loop is the sequential run of the instantiated lane tasks (C09Link.model_fill_eq_seqFill), hence for every input on the documented domain and EVERY family of complete schedules the phases followed by extractKey give exactly the model's key, which equals the RFC 9106 reference (C04.key_eq_rfc); (4) the goroutine/WaitGroup structure of processBlocks regenerated from the source equals the shape the phase model assumes (workers_joined_facts). Go side: lanes 2..8 × 3 variants × 2 versions × memory {8p, 8p+3, 32p} × time 1..3 × GOMAXPROCS {1,2,3,16} with competing goroutines, on the purego build under the race detector; keys equal the sequential Lean model; goroutine count restored.",
         "note": "Kernel-checked: the reference-set theorems about the generated indexAlpha (refset_in_memory, refset_cross_lane_completed, refset_same_lane_earlier), the generic phase theorem (schedule_independent, complete_schedules_agree, complete_eq_sequential) and its Argon2 instantiation (argon2_phase_local, argon2_no_read_of_foreign_segment, key_schedule_independent: every complete schedule of all 4·time phases equals the sequential fill). "
